@@ -367,6 +367,11 @@ func (c *Case) render() (*rendered, bool) {
 		r.sentences = append(r.sentences, []int{tB, tC, tA})
 		r.expectN = append(r.expectN, 77)
 	}
+	if c.Variadic { // (before the second rule is written: the production belongs to s)
+		lox.WriteString("  | B B vt\n")
+		r.sentences = append(r.sentences, []int{tB, tB, tA, tC, tC}, []int{tB, tB, tA})
+		r.expectN = append(r.expectN, 2, 0)
+	}
 	if extraTerm != "" {
 		lox.WriteString("  | SEP e\n")
 		if !c.ExtraBefore {
@@ -377,11 +382,6 @@ func (c *Case) render() (*rendered, bool) {
 			r.sentences = append(r.sentences, append(w, tB))
 			r.expectN = append(r.expectN, extraN[i])
 		}
-	}
-	if c.Variadic {
-		lox.WriteString("  | B B vt\n")
-		r.sentences = append(r.sentences, []int{tB, tB, tA, tC, tC}, []int{tB, tB, tA})
-		r.expectN = append(r.expectN, 2, 0)
 	}
 	xLine := strings.Count(lox.String(), "\n") + 1
 	if c.Skel != "tokstar" {
